@@ -120,15 +120,17 @@ def _ob_info5(vi: int, ci: int) -> bool:
 # ---- H.check ----------------------------------------------------------------------------------------------
 def _ob_check(missing: int, i: int, j: int, with_trunc: bool) -> bool:
     """
-    pre: -1 <= missing < 5 and 0 <= i < 5 and 0 <= j < 5
+    pre: -1 <= missing < 5 and 0 <= i < 6 and 0 <= j < 6
     post: _
     """
     missing = bsearch(missing + 1, 6) - 1
-    i, j = bsearch(i, 5), bsearch(j, 5)
+    i, j = bsearch(i, 6), bsearch(j, 6)
     with concrete():
         base = dict(zip(ROLES[:5], ['|', '^', '~', '\\', '&']))
         if with_trunc:
             base['TRUNCATION'] = '#'
+        elif i == 5 or j == 5:
+            return True
         d = dict(base)
         if i != j:
             d[ROLES[j]] = d[ROLES[i]]
@@ -156,7 +158,7 @@ def _descendants(el):
                 yield x
 
 
-def roles_ok(version, chars, trace=None):
+def roles_ok(version, chars, trace=None, trav=False):
     reset_defaults()
     ec = dict(zip(ROLES, chars))
     F, C, R, E, S = chars[:5]
@@ -166,8 +168,17 @@ def roles_ok(version, chars, trace=None):
     m.msh.msh_9 = 'ADT' + C + 'A01' + C + 'ADT_A01'
     m.msh.msh_10 = '1'
     m.msh.msh_11 = 'P'
-    pid = 'PID' + F + '1' + F + F + 'X' + C + C + C + 'H' + S + 'I' + F + F + 'S' + C + 'N' + R + 'T'
-    m.pid = pid
+    if not trav:
+        pid = 'PID' + F + '1' + F + F + 'X' + C + C + C + 'H' + S + 'I' + F + F + 'S' + C + 'N' + R + 'T'
+        m.pid = pid
+    else:
+        # the same kind of content assigned through navigation: PID and its fields do not exist when the first value is
+        # assigned, so the text is parsed by elements that only have a navigation parent
+        pid = 'PID' + F + '1' + F + F + 'X' + C + C + C + 'H' + S + 'I' + F + F + 'S' + C + 'N'
+        m.pid.pid_3 = 'X' + C + C + C + 'H' + S + 'I'
+        m.pid.pid_1 = '1'
+        m.pid.pid_5.xpn_2 = 'N'
+        m.pid.pid_5.xpn_1 = 'S'
     msh = 'MSH' + F + C + R + E + S + Tn + F * 5 + '2020' + F * 2 + 'ADT' + C + 'A01' + C + 'ADT_A01' + F + '1' + F + 'P' + F + version
     want = msh + '\r' + pid
     got = m.to_er7()
@@ -188,7 +199,7 @@ def roles_ok(version, chars, trace=None):
     return all(ok for _, ok in checks)
 
 
-def _ob_roles5(vi: int, p: int) -> bool:
+def _ob_roles5(vi: int, p: int, trav: bool) -> bool:
     """
     pre: 0 <= vi < 4 and 0 <= p < N5
     pre: in_part(p)
@@ -196,10 +207,10 @@ def _ob_roles5(vi: int, p: int) -> bool:
     """
     vi, p = bsearch(vi, 4), bsearch(p, N5)
     with concrete():
-        return roles_ok(VERS[vi], [K[x] for x in PERMS5[p]])
+        return roles_ok(VERS[vi], [K[x] for x in PERMS5[p]], None, trav)
 
 
-def _ob_roles6(vi: int, p: int) -> bool:
+def _ob_roles6(vi: int, p: int, trav: bool) -> bool:
     """
     pre: 2 <= vi < 4 and 0 <= p < N6
     pre: in_part(p)
@@ -207,7 +218,7 @@ def _ob_roles6(vi: int, p: int) -> bool:
     """
     vi, p = bsearch(vi - 2, 2) + 2, bsearch(p, N6)
     with concrete():
-        return roles_ok(VERS[vi], [K[x] for x in PERMS6[p]])
+        return roles_ok(VERS[vi], [K[x] for x in PERMS6[p]], None, trav)
 
 
 def _ob_trunc_below27(vi: int, p: int) -> bool:
@@ -239,10 +250,10 @@ def explain(call):
         ver = VERS[HV[v['vi']]]
         tr.append('get_message_info(MSH + %r + ...) version %s -> %r ; expected %r' % (''.join(chars), ver, _info(chars, ver), _expect(chars, ver)))
     elif name in ('_ob_roles5', '_ob_roles6'):
-        v = dict(zip(['vi', 'p'], a)); v.update(kw)
+        v = dict(zip(['vi', 'p', 'trav'], a)); v.update(kw)
         perm = (PERMS5 if name == '_ob_roles5' else PERMS6)[v['p']]
         try:
-            roles_ok(VERS[v['vi']], [K[x] for x in perm], tr)
+            roles_ok(VERS[v['vi']], [K[x] for x in perm], tr, v.get('trav', False))
         except Exception as e:
             tr.append('raised %s: %s' % (type(e).__name__, e))
     return '\n'.join(tr)
